@@ -636,6 +636,38 @@ func TestStorms(t *testing.T) {
 			},
 		}
 	})
+	run("entity-churn-vs-disconnects", func(e *env, stop *atomic.Bool) []func() {
+		// local entities are added and removed (announced to subscribers) while a peer that holds
+		// subscriptions is disconnected and connected again: device lock vs registry lock
+		p1 := e.w.Peers[1]
+		return []func(){
+			func() {
+				for i := 0; i < 300; i++ {
+					ne := spine.NewEntityLocal(e.w.Local, model.EntityTypeTypeEV, spine.NewAddressEntityType([]uint{uint(5 + i%3)}), 100*time.Millisecond)
+					e.w.Local.AddEntity(ne)
+					e.w.Local.RemoveEntity(ne)
+				}
+				stop.Store(true)
+			},
+			func() {
+				p := p1
+				for !stop.Load() {
+					e.w.Local.RemoveRemoteDeviceConnection(p.Ski)
+					np := &world.Peer{W: e.w, Idx: p.Idx, Ski: p.Ski, Addr: p.Addr, Cap: &world.Capture{}}
+					np.Reader = e.w.Local.SetupRemoteDevice(np.Ski, np.Cap)
+					np.Dev = e.w.Local.RemoteDeviceForSki(np.Ski)
+					if msgs := np.Cap.All(); len(msgs) > 0 {
+						np.DiscoveryRef = msgs[0].D.Header.MsgCounter
+					}
+					np.Send(np.Msg(model.CmdClassifierTypeReply, np.NM(), world.LocalNM(), false, np.DiscoveryRef,
+						model.CmdType{NodeManagementDetailedDiscoveryData: np.DiscoveryData(world.WithDeviceInfo(peerTree), nil)}))
+					np.Send(np.Msg(model.CmdClassifierTypeCall, np.NM(), world.LocalNM(), true, nil, world.SubscribeCall(np.FA([]uint{1}, 1), e.meas.Address(), model.FeatureTypeTypeMeasurement)))
+					np.Send(np.Msg(model.CmdClassifierTypeCall, np.NM(), world.LocalNM(), true, nil, world.SubscribeCall(np.NM(), world.LocalNM(), model.FeatureTypeTypeNodeManagement)))
+					p = np
+				}
+			},
+		}
+	})
 	run("remote-entities-vs-readers", func(e *env, stop *atomic.Bool) []func() {
 		// a peer's entity comes and goes (discovery notifications) while application goroutines walk
 		// that peer's tree through the public accessors and registries are queried
